@@ -128,6 +128,39 @@ def _check_ownership(ctx, mod, cls):
     return acc, sift
 
 
+def _helper_pushes(ctx, cls, name):
+    """Does ReactorBase.<name>(x) push x on the timer heap on every path, and fold the delay into the key first?
+    -> None | {"activate": bool}"""
+    ms = methods(cls)
+    f = ms.get(name)
+    if f is None:
+        return None
+    ps = [a.arg for a in f.args.args][1:]
+    if len(ps) != 1:
+        return None
+    g = ctx.cfg(f)
+    al = _heap_aliases(f)
+    pushes = g.find(lambda x: _is_call(x, "heappush") and len(x.args) == 2 and _is_heap(x.args[0], al) and src(x.args[1]) == ps[0])
+    if not pushes or g.must_pass([g.entry], pushes, exc=False) is not None:
+        return None
+    acts = g.find(lambda x: isinstance(x, ast.Call) and isinstance(x.func, ast.Attribute) and x.func.attr == "activate_delay" and src(x.func.value) == ps[0])
+    return {"activate": bool(acts) and g.path([g.entry], pushes, avoid=acts) is None and g.path(pushes, acts, strict=True) is None}
+
+
+def _push_sites(ctx, cls, g, al, var):
+    """CFG nodes that put `var` (back) on the heap: heappush(heap, var) or self.<helper>(var)."""
+    direct = g.find(lambda x: _is_call(x, "heappush") and len(x.args) == 2 and _is_heap(x.args[0], al) and src(x.args[1]) == var)
+    via = {}
+    for n in g.find(lambda x: isinstance(x, ast.Call) and (call_name(x) or "").startswith("self.") and call_name(x).count(".") == 1
+                    and len(x.args) == 1 and not x.keywords and src(x.args[0]) == var):
+        for x in walk_local(g.node(n).ast):
+            if isinstance(x, ast.Call) and (call_name(x) or "").startswith("self.") and len(x.args) == 1 and src(x.args[0]) == var:
+                h = _helper_pushes(ctx, cls, call_name(x)[5:])
+                if h is not None:
+                    via[n] = h
+    return direct, via
+
+
 def _heap_ok(h):
     return all(not (h[i] < h[(i - 1) // 2]) for i in range(1, len(h)))
 
@@ -202,6 +235,7 @@ def _check_call_later(ctx, mod, cls, sift):
     if len(ctors) != 1:
         return None, None
     c = ctors[0]
+    ctx.need(not any(isinstance(a, ast.Starred) for a in c.args) and all(k.arg for k in c.keywords), "DelayedCall(...) with explicit arguments")
     init = ctx.func(BASE, "DelayedCall.__init__")
     names = [a.arg for a in init.args.args][1:]
     bound = {}
@@ -277,6 +311,12 @@ def _check_insert(ctx, mod, cls):
         it = g.node(l).ast.iter
         if _self_attr(it, NEW) or (isinstance(it, ast.Name) and it.id in pre_alias):
             heads.append(l)
+        elif isinstance(it, ast.Call) and dotted(it.func) in ("list", "tuple") and len(it.args) == 1 and _self_attr(it.args[0], NEW):
+            heads.append(l)
+        elif isinstance(it, ast.Subscript) and _self_attr(it.value, NEW) and isinstance(it.slice, ast.Slice) and not (it.slice.lower or it.slice.upper or it.slice.step):
+            heads.append(l)
+    if not heads and (loops or g.find(lambda x: _is_call(x, "heappush"))):
+        ctx.need(False, "a loop over self._newTimedCalls in _insertNewDelayedCalls (shape not recognised)")
     ctx.check(len(heads) == 1, "insert/drains-staging-list", q, "no single loop over every call of the staging list")
     if len(heads) != 1:
         return
@@ -287,7 +327,8 @@ def _check_insert(ctx, mod, cls):
     body_start = [d for d, l in g.succ[head] if l == "iter"]
     al = _heap_aliases(f)
     _alias_guard(g, al)
-    pushes = g.find(lambda x: _is_call(x, "heappush") and len(x.args) == 2 and _is_heap(x.args[0], al) and src(x.args[1]) == var)
+    direct, via = _push_sites(ctx, cls, g, al, var)
+    pushes = sorted(set(direct) | set(via))
     decs = [d for d in _dec_sites(g) if isinstance(g.node(d).ast.op, ast.Sub) and src(g.node(d).ast.value) == "1"]
     for p in pushes:
         ctx.check(_cancelled_guard(g, p, var) is False, "insert/skips-cancelled", ctx.construct(q, g.node(p).ast),
@@ -386,7 +427,8 @@ def _check_run(ctx, mod, cls, Elem):
     ctx.check(len(outs) == 1, "run/calls-once", q, f"{len(outs)} call-outs `X.func(...)` in runUntilCurrent (exactly one expected)")
     dec_ok = [d for d in _dec_sites(g) if isinstance(g.node(d).ast.op, ast.Sub) and src(g.node(d).ast.value) == "1"
               and _cancelled_guard(g, d, var) is True and g.dominates(pop, d)]
-    pushes = g.find(lambda x: _is_call(x, "heappush") and len(x.args) == 2 and _is_heap(x.args[0], al) and src(x.args[1]) == var)
+    direct, via = _push_sites(ctx, cls, g, al, var)
+    pushes = sorted(set(direct) | set(via))
     for o in outs:
         call = next(x for x in walk_local(g.node(o).ast) if isinstance(x, ast.Call) and isinstance(x.func, ast.Attribute) and x.func.attr == "func")
         c = ctx.construct(q, call)
@@ -445,6 +487,8 @@ def _check_run(ctx, mod, cls, Elem):
         ctx.check(_cancelled_guard(g, p, var) is False, "run/skips-cancelled", c, "a cancelled call is pushed back on the heap")
         acts = g.find(lambda x: isinstance(x, ast.Call) and isinstance(x.func, ast.Attribute) and x.func.attr == "activate_delay" and src(x.func.value) == var)
         wit = g.path([pop], [p], avoid=acts)
+        if p in via and via[p]["activate"]:
+            acts, wit = [p], None
         ctx.check(bool(acts) and wit is None, "run/repush-with-new-key", c,
                   "a delayed call is pushed back without folding delayed_time into its key: it is popped again at once, for ever",
                   witness=g.describe(wit))
@@ -456,37 +500,38 @@ def _check_run(ctx, mod, cls, Elem):
         ctx.check(d in dec_ok, "cancellations/coupled", ctx.construct(q, g.node(d).ast),
                   "_cancellations is changed here although no cancelled call leaves the heap at this point")
     # ---- compaction
-    acc = [a for a in accesses(f, "ReactorBase.runUntilCurrent", {HEAP}, {"self"}) if a.kind == "assign"]
-    heapifies = g.find(lambda x: (_is_call(x, "heapify") and x.args and _self_attr(x.args[0], HEAP)) or (
-        isinstance(x, ast.Call) and isinstance(x.func, ast.Attribute) and x.func.attr == "sort" and _self_attr(x.func.value, HEAP) and not x.args and not x.keywords))
-    zeros = g.ids(lambda n: n.kind == "stmt" and isinstance(n.ast, ast.Assign) and any(_self_attr(t, CANC) for t in n.ast.targets))
-    Reactor = model_class(cls, "ReactorModel")
-    for a in acc:
-        c = ctx.construct(q, a.node)
-        nodes = g.ids_of(a.node)
-        wit = g.path(nodes, [g.exit] + pops + loop_tests, avoid=heapifies, strict=True, edge_ok=lambda x, y, l: l != "exc")
-        ctx.check(bool(heapifies) and wit is None, "heap/compaction", c,
-                  "the filtered list is not heapified before it is used as a heap again: calls run out of time order", witness=g.describe(wit))
-        live = [Elem(time=t, delayed_time=0.0, cancelled=cn) for t, cn in ((1, 0), (2, 1), (3, 1), (4, 0), (5, 1), (6, 0))]
-        r = Reactor(**{HEAP: list(live), CANC: 3})
-        bad = None
-        try:
-            MiniEval.budget = 0
-            got = MiniEval({"self": r}, {}).expr(a.node.value)
-            if sorted(map(id, got)) != sorted(id(e) for e in live if not e.cancelled):
-                bad = f"from calls with cancelled flags {[e.cancelled for e in live]} it keeps those with flags {[e.cancelled for e in got]}"
-        except (MiniRaise, MiniBudget, TypeError, AttributeError, ValueError) as e:
-            bad = f"the filter does not evaluate ({type(e).__name__}: {e})"
-        ctx.check(bad is None, "heap/compaction-keeps-live-calls", c, f"compaction does not keep exactly the uncancelled calls: {bad}")
-        z = [n for n in zeros if isinstance(g.node(n).ast.value, ast.Constant) and g.node(n).ast.value.value == 0]
-        coupled = bool(z) and all(any(g.dominates(x, n) for x in z) or g.must_pass([n], z, exc=False) is None for n in nodes)
-        ctx.check(coupled, "cancellations/coupled", c + " | <count reset>", "cancelled calls are removed from the heap without resetting _cancellations")
-    for n in zeros:
-        nodes = [x for a in acc for x in g.ids_of(a.node)]
-        ok = isinstance(g.node(n).ast.value, ast.Constant) and g.node(n).ast.value.value == 0 and bool(nodes) and (
-            any(g.dominates(x, n) for x in nodes) or g.must_pass([n], nodes, exc=False) is None)
-        ctx.check(ok, "cancellations/coupled", ctx.construct(q, g.node(n).ast),
-                  "_cancellations is reset although the cancelled calls stay in the heap (they will be un-counted again when popped)")
+    with ctx.section("compaction"):
+        acc = [a for a in accesses(f, "ReactorBase.runUntilCurrent", {HEAP}, {"self"}) if a.kind == "assign"]
+        heapifies = g.find(lambda x: (_is_call(x, "heapify") and x.args and _self_attr(x.args[0], HEAP)) or (
+            isinstance(x, ast.Call) and isinstance(x.func, ast.Attribute) and x.func.attr == "sort" and _self_attr(x.func.value, HEAP) and not x.args and not x.keywords))
+        zeros = g.ids(lambda n: n.kind == "stmt" and isinstance(n.ast, ast.Assign) and any(_self_attr(t, CANC) for t in n.ast.targets))
+        Reactor = model_class(cls, "ReactorModel")
+        for a in acc:
+            c = ctx.construct(q, a.node)
+            nodes = g.ids_of(a.node)
+            wit = g.path(nodes, [g.exit] + pops + loop_tests, avoid=heapifies, strict=True, edge_ok=lambda x, y, l: l != "exc")
+            ctx.check(bool(heapifies) and wit is None, "heap/compaction", c,
+                      "the filtered list is not heapified before it is used as a heap again: calls run out of time order", witness=g.describe(wit))
+            live = [Elem(time=t, delayed_time=0.0, cancelled=cn) for t, cn in ((1, 0), (2, 1), (3, 1), (4, 0), (5, 1), (6, 0))]
+            r = Reactor(**{HEAP: list(live), CANC: 3})
+            bad = None
+            try:
+                MiniEval.budget = 0
+                got = MiniEval({"self": r}, {}).expr(a.node.value)
+                if sorted(map(id, got)) != sorted(id(e) for e in live if not e.cancelled):
+                    bad = f"from calls with cancelled flags {[e.cancelled for e in live]} it keeps those with flags {[e.cancelled for e in got]}"
+            except (MiniRaise, MiniBudget, TypeError, AttributeError, ValueError) as e:
+                bad = f"the filter does not evaluate ({type(e).__name__}: {e})"
+            ctx.check(bad is None, "heap/compaction-keeps-live-calls", c, f"compaction does not keep exactly the uncancelled calls: {bad}")
+            z = [n for n in zeros if isinstance(g.node(n).ast.value, ast.Constant) and g.node(n).ast.value.value == 0]
+            coupled = bool(z) and all(any(g.dominates(x, n) for x in z) or g.must_pass([n], z, exc=False) is None for n in nodes)
+            ctx.check(coupled, "cancellations/coupled", c + " | <count reset>", "cancelled calls are removed from the heap without resetting _cancellations")
+        for n in zeros:
+            nodes = [x for a in acc for x in g.ids_of(a.node)]
+            ok = isinstance(g.node(n).ast.value, ast.Constant) and g.node(n).ast.value.value == 0 and bool(nodes) and (
+                any(g.dominates(x, n) for x in nodes) or g.must_pass([n], nodes, exc=False) is None)
+            ctx.check(ok, "cancellations/coupled", ctx.construct(q, g.node(n).ast),
+                      "_cancellations is reset although the cancelled calls stay in the heap (they will be un-counted again when popped)")
 
 
 # =============================================================================== timeout / getDelayedCalls
@@ -551,29 +596,43 @@ def check(ctx):
     mod = ctx.mod(BASE)
     cls = ctx.cls(BASE, "ReactorBase")
     Elem = check_delayed_call(ctx, mod, heap_rules=True)
-    acc, sift = _check_ownership(ctx, mod, cls)
-    canc, rst = _check_call_later(ctx, mod, cls, sift)
+    ms = methods(cls)
+    acc, sift = [], set()
+    with ctx.section("heap ownership"):
+        acc, sift = _check_ownership(ctx, mod, cls)
+    # defaults found syntactically, so that an unreadable callLater cannot hide the resetter / canceller rules
+    canc = "_cancelCallLater" if "_cancelCallLater" in ms else None
+    rst = "_moveCallLaterSooner" if "_moveCallLaterSooner" in ms else None
+    with ctx.section("callLater"):
+        c2, r2 = _check_call_later(ctx, mod, cls, sift)
+        canc, rst = c2 or canc, r2 or rst
     if rst:
-        _check_resetter(ctx, mod, cls, Elem, rst)
-    for s in sorted(sift - {rst}):
-        ctx.violation("heap/ownership", f"{R}.{s}", "a function other than the resetter stores into the heap by subscript")
-    # _cancellations: incremented exactly by the canceller handed to DelayedCall
-    incs = [a for a in acc if a.attr == CANC and a.kind == "augassign" and isinstance(a.node.op, ast.Add)]
-    if canc:
-        f = ctx.func(BASE, f"ReactorBase.{canc}")
-        own = [a for a in incs if a.func == f"ReactorBase.{canc}"]
-        g = ctx.cfg(f)
-        nodes = [n for a in own for n in g.ids_of(a.node)]
-        wit = g.must_pass([g.entry], nodes, exc=False)
-        ctx.check(len(own) == 1 and src(own[0].node.value) == "1" and wit is None, "cancellations/counted", f"{R}.{canc}",
-                  "a cancellation is not counted exactly once: compaction and the un-counting at pop time go out of step", witness=g.describe(wit))
-    for a in incs:
-        ctx.check(canc is not None and a.func == f"ReactorBase.{canc}", "cancellations/counted", ctx.construct(f"{MODNAME}.{a.func}", a.node),
-                  "_cancellations is incremented outside the canceller")
-    _check_insert(ctx, mod, cls)
-    _check_run(ctx, mod, cls, Elem)
-    _check_timeout(ctx, mod, cls, Elem)
-    _check_get_delayed_calls(ctx, mod, cls, Elem)
+        with ctx.section("resetter"):
+            _check_resetter(ctx, mod, cls, Elem, rst)
+    with ctx.section("cancellation count"):
+        for s in sorted(sift - {rst}):
+            ctx.violation("heap/ownership", f"{R}.{s}", "a function other than the resetter stores into the heap by subscript")
+        # _cancellations: incremented exactly by the canceller handed to DelayedCall
+        incs = [a for a in acc if a.attr == CANC and a.kind == "augassign" and isinstance(a.node.op, ast.Add)]
+        if canc:
+            f = ctx.func(BASE, f"ReactorBase.{canc}")
+            own = [a for a in incs if a.func == f"ReactorBase.{canc}"]
+            g = ctx.cfg(f)
+            nodes = [n for a in own for n in g.ids_of(a.node)]
+            wit = g.must_pass([g.entry], nodes, exc=False)
+            ctx.check(len(own) == 1 and src(own[0].node.value) == "1" and wit is None, "cancellations/counted", f"{R}.{canc}",
+                      "a cancellation is not counted exactly once: compaction and the un-counting at pop time go out of step", witness=g.describe(wit))
+        for a in incs:
+            ctx.check(canc is not None and a.func == f"ReactorBase.{canc}", "cancellations/counted", ctx.construct(f"{MODNAME}.{a.func}", a.node),
+                      "_cancellations is incremented outside the canceller")
+    with ctx.section("_insertNewDelayedCalls"):
+        _check_insert(ctx, mod, cls)
+    with ctx.section("runUntilCurrent"):
+        _check_run(ctx, mod, cls, Elem)
+    with ctx.section("timeout"):
+        _check_timeout(ctx, mod, cls, Elem)
+    with ctx.section("getDelayedCalls"):
+        _check_get_delayed_calls(ctx, mod, cls, Elem)
 
 
 _DELAYED_BRANCH = ('            if call.delayed_time > 0.0:\n                call.activate_delay()\n'
@@ -646,4 +705,25 @@ SILENT = [
     Silent("called-set-before-with", BASE, _WITH, "            call.called = 1\n            with logHandler:\n                call.func(*call.args, **call.kw)\n"),
     Silent("resetter-heapifies", BASE, "            pos = heap.index(delayedCall)\n", "            pos = heap.index(delayedCall)\n            heapify(heap)\n            return\n"),
     Silent("delay-activates-at-zero", BASE, "            if self.delayed_time < 0.0:\n                self.activate_delay()", "            if self.delayed_time <= 0.0:\n                self.activate_delay()"),
+]
+
+_LOOP_HEAD = '        while self._pendingTimedCalls and (self._pendingTimedCalls[0].time <= now):\n            call = heappop(self._pendingTimedCalls)\n'
+MUTANTS += [
+    # a violation in runUntilCurrent must be reported although _insertNewDelayedCalls has a shape the rules cannot read
+    Mutant("boundary-strict-behind-unreadable-insert", BASE, "(self._pendingTimedCalls[0].time <= now)", "(self._pendingTimedCalls[0].time < now)",
+           expect_rule="run/loop-boundary",
+           more=[(BASE, "        for call in self._newTimedCalls:\n            if call.cancelled:", "        for call in list(self._newTimedCalls) + []:\n            if call.cancelled:")]),
+    Mutant("delay-without-resetter-behind-unreadable-reset", BASE, "                self.activate_delay()\n                self.resetter(self)\n", "                self.activate_delay()\n",
+           expect_rule="key/resetter-after-decrease",
+           more=[(BASE, "            newTime = self.seconds() + secondsFromNow\n", "            newTime = self.seconds() + secondsFromNow\n            for _ in ():\n                pass\n")]),
+]
+SILENT += [
+    Silent("run-loop-while-true-break", BASE, _LOOP_HEAD,
+           "        while True:\n            if not self._pendingTimedCalls or self._pendingTimedCalls[0].time > now:\n                break\n            call = heappop(self._pendingTimedCalls)\n"),
+    Silent("insert-loop-continue-style", BASE, _INSERT_LOOP,
+           "        for call in self._newTimedCalls:\n            if call.cancelled:\n                self._cancellations -= 1\n                continue\n"
+           "            call.activate_delay()\n            heappush(self._pendingTimedCalls, call)\n        self._newTimedCalls = []\n"),
+    Silent("requeue-helper-extracted", BASE, _DELAYED_BRANCH, "            if call.delayed_time > 0.0:\n                self._requeue(call)\n                continue\n\n",
+           more=[(BASE, "    def _cancelCallLater(self, delayedCall: DelayedCall) -> None:",
+                  "    def _requeue(self, call):\n        call.activate_delay()\n        heappush(self._pendingTimedCalls, call)\n\n    def _cancelCallLater(self, delayedCall: DelayedCall) -> None:")]),
 ]
